@@ -54,8 +54,18 @@ class C03(common.Spec):
         log = []
         d, ins = case['def'], case['inst']
 
+        writable = []
+
         def tagnow():
-            return edzed.fsm_event_data.get().get('tag')
+            data = edzed.fsm_event_data.get()
+            try:                       # "the READ-ONLY data of the event that caused that action"
+                data['scribble'] = 1
+            except TypeError:
+                pass
+            else:
+                writable.append(True)
+                data.pop('scribble', None)
+            return data.get('tag')
 
         def mk_cond(ev, result, inst):
             if inst:
@@ -136,7 +146,7 @@ class C03(common.Spec):
                 else:
                     log.append([etype, data['state'], enc(data['value'])])
 
-        obs = dict(class_ok=True, events=[])
+        obs = dict(class_ok=True, events=[], writable=writable)
 
         def build():
             dest = Dest('dest')
@@ -389,6 +399,14 @@ def check(run):
         run.count('nstates=%d' % len(c['def']['states']))
         run.count('ntimed=%d' % len(c['def']['timed']))
     res = common.standard_flow(run, spec, cases)
+    bad = [(c, o) for c, o, ch in res if o.get('writable')]
+    run.add_obligation(not bad)
+    if bad:
+        c, o = min(bad, key=lambda x: len(repr(x[0])))
+        run.violation('monitor', dict(case=c, observed=dict(writable_event_data=len(o['writable']))),
+                      "a cond/enter/exit callback could WRITE to the event data it got through fsm_event_data "
+                      f"({len(o['writable'])} times): {spec.describe(c, o)[:1200]}",
+                      clause='event_data_writable', concrete=True)
     for c, o, ch in res:
         run.count('class_ok_' + str(o['class_ok']))
         for e in o['events']:
@@ -398,4 +416,13 @@ def check(run):
 
 
 def replay(run, path):
+    payload, case = common.load_replay_case(path)
+    if payload.get('clause') == 'event_data_writable':
+        def again():
+            o = C03().run_impl([case])[0] if hasattr(C03, 'run_impl') else {}
+            if o.get('writable'):
+                run.violation('monitor', dict(case=case, observed=dict(writable_event_data=len(o['writable']))),
+                              f"a callback could write to the event data it got through fsm_event_data "
+                              f"({len(o['writable'])} times)", clause='event_data_writable', concrete=True)
+        return common.directed_replay(run, path, again)
     return common.std_replay(run, C03(), path)
